@@ -1,0 +1,17 @@
+//! Read-only verification hooks (feature `verif-hooks`).
+use super::SegmentedCache;
+use crate::lru::RawLRU;
+use crate::DefaultEvictCallback;
+
+impl<K, V, FH, RH> SegmentedCache<K, V, FH, RH> {
+    /// The probationary and the protected segment.
+    #[allow(clippy::type_complexity)]
+    pub fn verif_segments(
+        &self,
+    ) -> (
+        &RawLRU<K, V, DefaultEvictCallback, RH>,
+        &RawLRU<K, V, DefaultEvictCallback, FH>,
+    ) {
+        (&self.probationary, &self.protected)
+    }
+}
